@@ -370,6 +370,7 @@ package action
 //@   ensures [touches-only-this-release] !old(u.Atomic) ==> forall inf *release.Info :: inf != rel.Info ==> inf.Status == old(inf.Status)
 //@   ensures [no-cleanup-without-flag] !old(u.CleanupOnFail) && !old(u.Atomic) ==> Kdeleted == old(Kdeleted) && Kmutated == old(Kmutated)
 //@   ensures [atomic-restores-a-stored-revision] at "has been rolled back due to atomic" (exists v int, t int :: old(Dex)[mkkey(rel.Name, t)] && !old(Dex)[mkkey(rel.Name, v)] && Dex[mkkey(rel.Name, v)] && Dattempt[mkkey(rel.Name, v)] == "deployed" && (Dman[mkkey(rel.Name, v)] == old(Dman)[mkkey(rel.Name, t)] || Dman[mkkey(rel.Name, v)] == rel.Manifest))
+//@   ensures [atomic-always-reaches-the-rollback] before "if u.Atomic {" !old(u.Atomic)
 //@   ensures [cleanup-deletes-only-created] old(u.CleanupOnFail) && !old(u.Atomic) ==> Kdeleted == old(Kdeleted) || Kdeleted == store(old(Kdeleted), builtFrom(created), true)
 //@   loop 1 invariant Kdeleted == store(old(Kdeleted), builtFrom(created), true) && rel.Info.Status == "failed"
 
